@@ -93,6 +93,9 @@ def body(ctx):
     companions = os.path.join(d, "companion.lua")
     with open(companions, "w") as fh:
         fh.write("local other = 1\nprint(other, undefined_other)\n")
+    with open(os.path.join(d, "a_broken.lua"), "w") as fh:
+        fh.write("local function broken(\nprint('never closed'\n")
+    os.makedirs(os.path.join(d, "a_dir.lua"), exist_ok=True)
     def outcome(args, name):
         rc, out, err = cli.run_selene(["--display-style", "quiet", "--no-summary"] + args, d)
         ctx.evaluations += 1
@@ -112,7 +115,8 @@ def body(ctx):
         alone = outcome([name], name)
         # the exit status of a joint run also reflects the companion's diagnostics: compare the subject's own lines only
         strip = lambda o: o if o == "process died" else o.rsplit("\nexit status", 1)[0]
-        for label, args in (("next to another file", [name, "companion.lua"]), ("next to another file, one thread", ["--num-threads", "1", "companion.lua", name])):
+        for label, args in (("next to another file", [name, "companion.lua"]), ("next to another file, one thread", ["--num-threads", "1", "companion.lua", name]),
+                            ("after a file that does not parse and one that cannot be read, one thread", ["--num-threads", "1", "a_broken.lua", "a_dir.lua", name])):
             together = outcome(args, name)
             if strip(alone) != strip(together):
                 # an overflow threshold could in principle wobble between process starts: report only what repeats
